@@ -614,8 +614,8 @@ def bound_names(code):
         if t.text == 'let':
             j = i + 1
             if j < len(toks) and toks[j].text == 'mut': j += 1
-            if j < len(toks) and toks[j].kind == 'id' and toks[j].text not in ('ghost', 'tracked'):
-                names.add(toks[j].text)
+            if j + 1 < len(toks) and toks[j].kind == 'id' and toks[j].text not in ('ghost', 'tracked') and toks[j + 1].text in ('=', ':', ';'):
+                names.add(toks[j].text)          # a plain binding; `let Some(x) = ..` / `let (a, b) = ..` patterns are not followed
         elif t.text == 'for' and i + 2 < len(toks) and toks[i + 1].kind == 'id' and toks[i + 2].text == 'in':
             names.add(toks[i + 1].text)
     try:
@@ -865,7 +865,8 @@ def assemble_fn(repo, fs, record, canary=None, stub=False, soft=None):
         pieces.append((ins, tag))
         last = off
     pieces.append((text[last:], 'CODE'))
-    record.append({'key': [fs.file, fs.name, fs.within], 'names': sorted(bound_names(drop_comments(raw))), 'renamed': getattr(fs, 'renamed', {}), 'code': text, 'simple': fs.name, 'fn': (fs.within + '::' if fs.within else '') + fs.name, 'file': fs.file, 'line': line0,
+    _bn = bound_names(drop_comments(raw)); _tk = [t.text for t in _tok_code(drop_comments(raw)) if t.kind == 'id']
+    record.append({'key': [fs.file, fs.name, fs.within], 'names': sorted(_bn), 'name_uses': {x: _tk.count(x) for x in _bn}, 'renamed': getattr(fs, 'renamed', {}), 'code': text, 'simple': fs.name, 'fn': (fs.within + '::' if fs.within else '') + fs.name, 'file': fs.file, 'line': line0,
                    'sha256': sha, 'rules': fired, 'n_loops': len(loop_idx), 'n_canaries': n_canaries})
     return pieces
 
